@@ -390,6 +390,14 @@ struct FnEmitter {
         const Stmt *LC = B->getLastCondition();
         if (LC) to["cond"] = idOf(LC); else to["cond"] = nullptr;
         if (auto *GS = dyn_cast<GotoStmt>(T)) to["target"] = GS->getLabel()->getNameAsString();
+        // the whole controlling expression of a branching statement (its short-circuit operands live in other blocks)
+        const Expr *Full = nullptr;
+        if (auto *IS = dyn_cast<IfStmt>(T)) Full = IS->getCond();
+        else if (auto *WS = dyn_cast<WhileStmt>(T)) Full = WS->getCond();
+        else if (auto *DS = dyn_cast<DoStmt>(T)) Full = DS->getCond();
+        else if (auto *FS = dyn_cast<ForStmt>(T)) Full = FS->getCond();
+        else if (auto *CO = dyn_cast<ConditionalOperator>(T)) Full = CO->getCond();
+        if (Full) to["full"] = expr(Full, bid, false);
         bo["term"] = std::move(to);
       }
       // label
